@@ -803,6 +803,136 @@ theorem Inv.init {h : Nat} {w : World R} (hwf : Tape.WF (w h)) :
 theorem GU.init {h i : Nat} : GU h i (fun _ => (0 : R)) [] [] :=
   ⟨rfl, fun k hk => by simp at hk, fun j => by simp⟩
 
+/-! ### constants never touch a tape -/
+
+theorem unary_const (a : Rec R) (F D : R → R) (w : World R) (ha : a.history = none) :
+    a.unary F D w = (Rec.constant (F a.number), w) := by
+  simp [Rec.unary, ha]
+
+theorem binary_const (a b : Rec R) (F DX DY : R → R → R) (w : World R) (ha : a.history = none)
+    (hb : b.history = none) :
+    a.binary b F DX DY w = .ok (Rec.constant (F a.number b.number), w) := by
+  simp [Rec.binary, Rec.sameList, ha, hb]
+
+theorem sumLoop_const (items : List (Rec R)) :
+    ∀ (total : Rec R) (w : World R), total.history = none → total.index = 0 →
+      (∀ r ∈ items, r.history = none) →
+      ∃ r, Rec.sumLoop items total w = (w, .ok r) ∧ r.history = none ∧ r.index = 0 := by
+  induction items with
+  | nil => intro total w ht hi _; exact ⟨total, rfl, ht, hi⟩
+  | cons x xs ih =>
+    intro total w ht hi hall
+    have hx := hall x (by simp)
+    obtain ⟨r, hr, h1, h2⟩ := ih (Rec.constant (total.number + x.number)) w rfl rfl
+      (fun r hr => hall r (by simp [hr]))
+    refine ⟨r, ?_, h1, h2⟩
+    simp only [Rec.sumLoop, Rec.sumStep, ht, hx]
+    exact hr
+
+/-- An instruction (other than `var`) all of whose operands are constants changes no tape and
+    returns a record without a tape, at index 0. -/
+theorem exec_const_operands (ins : Instr R) (h : Nat) (env : Nat → R) (recs : List (Rec R))
+    (w : World R) (hnv : ins.isVar = false)
+    (hops : ∀ a ∈ ins.operands, (getRec recs a).history = none) :
+    ∃ x : R, ins.exec h env recs w = (w, .ok (Rec.constant x)) := by
+  cases ins with
+  | const c => exact ⟨_, rfl⟩
+  | var => simp [Instr.isVar] at hnv
+  | arith o a b =>
+    have ha := hops a (by simp [Instr.operands])
+    have hb := hops b (by simp [Instr.operands])
+    cases o
+    · exact ⟨_, by simp only [Instr.exec, Rec.add_eq, binary_const _ _ _ _ _ _ ha hb, liftStep_ok]; rfl⟩
+    · exact ⟨_, by simp only [Instr.exec, Rec.sub_eq, binary_const _ _ _ _ _ _ ha hb, liftStep_ok]; rfl⟩
+    · exact ⟨_, by simp only [Instr.exec, Rec.mul_eq, binary_const _ _ _ _ _ _ ha hb, liftStep_ok]; rfl⟩
+    · exact ⟨_, by simp only [Instr.exec, Rec.div_eq, binary_const _ _ _ _ _ _ ha hb, liftStep_ok]; rfl⟩
+  | arithNum o a c =>
+    have ha := hops a (by simp [Instr.operands])
+    cases o
+    · exact ⟨_, by simp only [Instr.exec, okStep, Rec.addNum_eq, unary_const _ _ _ _ ha]; rfl⟩
+    · exact ⟨_, by simp only [Instr.exec, okStep, Rec.subNum_eq, unary_const _ _ _ _ ha]; rfl⟩
+    · exact ⟨_, by simp only [Instr.exec, okStep, Rec.mulNum_eq, unary_const _ _ _ _ ha]; rfl⟩
+    · exact ⟨_, by simp only [Instr.exec, okStep, Rec.divNum_eq, unary_const _ _ _ _ ha]; rfl⟩
+  | swapped o c a =>
+    have ha := hops a (by simp [Instr.operands])
+    cases o
+    · exact ⟨_, by simp only [Instr.exec, okStep, Rec.subSwapped_eq, unary_const _ _ _ _ ha]; rfl⟩
+    · exact ⟨_, by simp only [Instr.exec, okStep, Rec.divSwapped_eq, unary_const _ _ _ _ ha]; rfl⟩
+  | neg a =>
+    have ha := hops a (by simp [Instr.operands])
+    exact ⟨_, by simp only [Instr.exec, okStep, Rec.neg_eq, unary_const _ _ _ _ ha]; rfl⟩
+  | sum as =>
+    obtain ⟨r, hr, h1, h2⟩ := sumLoop_const (as.map (getRec recs)) (Rec.constant 0) w rfl rfl
+      (by
+        intro r hr
+        simp only [List.mem_map] at hr
+        obtain ⟨a, ha, rfl⟩ := hr
+        exact hops a (by simpa [Instr.operands] using ha))
+    refine ⟨r.number, ?_⟩
+    simp only [Instr.exec, Rec.sum, hr]
+    cases r
+    simp only [Rec.constant] at h1 h2 ⊢
+    subst h1; subst h2; rfl
+  | real f a =>
+    have ha := hops a (by simp [Instr.operands])
+    cases f
+    · exact ⟨_, by simp only [Instr.exec, okStep, Rec.sin_eq, unary_const _ _ _ _ ha]; rfl⟩
+    · exact ⟨_, by simp only [Instr.exec, okStep, Rec.cos_eq, unary_const _ _ _ _ ha]; rfl⟩
+    · exact ⟨_, by simp only [Instr.exec, okStep, Rec.exp_eq, unary_const _ _ _ _ ha]; rfl⟩
+    · exact ⟨_, by simp only [Instr.exec, okStep, Rec.ln_eq, unary_const _ _ _ _ ha]; rfl⟩
+    · exact ⟨_, by simp only [Instr.exec, okStep, Rec.sqrt_eq, unary_const _ _ _ _ ha]; rfl⟩
+  | pow a b =>
+    have ha := hops a (by simp [Instr.operands])
+    have hb := hops b (by simp [Instr.operands])
+    exact ⟨_, by simp only [Instr.exec, Rec.pow_eq, binary_const _ _ _ _ _ _ ha hb, liftStep_ok]; rfl⟩
+  | powNum a c =>
+    have ha := hops a (by simp [Instr.operands])
+    exact ⟨_, by simp only [Instr.exec, okStep, Rec.powNum_eq, unary_const _ _ _ _ ha]; rfl⟩
+  | numPow c a =>
+    have ha := hops a (by simp [Instr.operands])
+    exact ⟨_, by simp only [Instr.exec, okStep, Rec.numPow_eq, unary_const _ _ _ _ ha]; rfl⟩
+  | unary f df a =>
+    have ha := hops a (by simp [Instr.operands])
+    exact ⟨_, by simp only [Instr.exec, okStep, unary_const _ _ _ _ ha]; rfl⟩
+  | binary f dfx dfy a b =>
+    have ha := hops a (by simp [Instr.operands])
+    have hb := hops b (by simp [Instr.operands])
+    exact ⟨_, by simp only [Instr.exec, binary_const _ _ _ _ _ _ ha hb, liftStep_ok]; rfl⟩
+
+/-- **All facts about a run at once.**  A well-scoped program started on a well-formed tape does
+    not panic; the final state satisfies the invariant for the direction of every input `i`
+    (the states are the same for all `i`, only the ghost seed differs). -/
+theorem run_facts {h : Nat} {env : Nat → R} (p : Prog R) (hp : p.WellScoped) (w0 : World R)
+    (hw0 : Tape.WF (w0 h)) :
+    ∃ (w : World R) (recs : List (Rec R)),
+      Prog.exec h env p w0 = (w, .ok recs) ∧ recs.length = p.length ∧
+      ∀ i, ∃ tseed : Nat → R,
+        Inv h tseed w recs (Prog.eval env p) (Prog.grad env p i) (Prog.deps p) ∧
+        GU h i tseed recs (p.map Instr.isVar) := by
+  obtain ⟨w, recs, _, hrun, _, _, hlen⟩ :=
+    prog_run (h := h) (i := 0) (env := env) p _ w0 [] [] [] [] [] (Inv.init hw0) GU.init hp
+  refine ⟨w, recs, hrun, by simpa using hlen, ?_⟩
+  intro i
+  obtain ⟨w', recs', tseed', hrun', hinv', hgu', _⟩ :=
+    prog_run (h := h) (i := i) (env := env) p _ w0 [] [] [] [] [] (Inv.init hw0) GU.init hp
+  rw [hrun] at hrun'
+  cases hrun'
+  exact ⟨tseed', hinv', by simpa using hgu'⟩
+
+/-- `derivatives()` of a record on tape `h` is the reverse sweep of that tape -/
+theorem Rec.derivatives_some (r : Rec R) (w : World R) (h : Nat) (hr : r.history = some h) :
+    r.derivatives w = reverseSweep (w h) r.index := by
+  unfold Rec.derivatives Rec.tryDerivatives
+  rw [hr]
+  show (match (match reverseSweep (w h) r.index with
+      | Outcome.ok d => Outcome.ok (some d)
+      | Outcome.panic k => Outcome.panic k) with
+    | Outcome.ok (some d) => Outcome.ok d
+    | Outcome.ok none => Outcome.panic PanicKind.explicit
+    | Outcome.panic k => Outcome.panic k) = _
+  generalize reverseSweep (w h) r.index = o
+  cases o <;> rfl
+
 end Inv
 
 end EasyMl
